@@ -274,6 +274,10 @@ func (r *FeatureLocal) CleanWriteApprovalCaches(ski string) {
 	r.muxResponseCB.Lock()
 	defer r.muxResponseCB.Unlock()
 
+	// stop the timers, otherwise they send an error result to the removed device when they fire
+	for _, timer := range r.pendingWriteApprovals[ski] {
+		timer.Stop()
+	}
 	delete(r.pendingWriteApprovals, ski)
 	delete(r.writeApprovalReceived, ski)
 }
